@@ -44,7 +44,9 @@ def same(a, b):
 
 
 def parse_transcript(line):
-    """-> list of programs: (P-line, [(kind, example tokens, vita, oracle)])"""
+    """-> list of programs: (P-line, [(kind, example tokens, vita, oracle, repeat, bad)]);
+    kind F/S/0/L; repeat = 1, or n for an `RR<k> n …` item (the example run n times in a row on the
+    object of kind k, `bad` of them with an answer different from the oracle's)"""
     progs = []
     for item in line.split(" ;; "):
         t = item.split()
@@ -54,7 +56,10 @@ def parse_transcript(line):
             progs.append((item, []))
         elif t[0][0] == "R" and progs:
             eq = t.index("=")
-            progs[-1][1].append((t[0][1:], t[1:eq], t[eq + 1], t[eq + 2]))
+            if t[0].startswith("RR"):
+                progs[-1][1].append((t[0][2:], t[2:eq], t[eq + 1], t[eq + 2], int(t[1]), int(t[eq + 3].split("=")[1])))
+            else:
+                progs[-1][1].append((t[0][1:], t[1:eq], t[eq + 1], t[eq + 2], 1, 0))
     return progs
 
 
@@ -64,12 +69,12 @@ def driver_lines(prog, runs, rng):
     out = ["prog " + prog[2:]]
     idx = []
     prev = None
-    for (kind, ex, _, _) in runs:
+    for (kind, ex, _, _, rep, _) in runs:
         if kind in ("F", "0") or kind != prev:
             out.append("new")
         if rng.below(4) == 0:
             out.append("stale")
-        out.append("run " + " ".join(ex))
+        out.append(("run " if rep == 1 else "rep %d " % rep) + " ".join(ex))
         idx.append(len(out) - 1)
         prev = kind
     return out, idx
@@ -80,8 +85,7 @@ def run_shard(lines):
 
 
 def run(chk, replay=None):
-    # vlib's SplitMix streams for adjacent seeds are shifted copies of each other: spread the seeds
-    rng = C.SplitMix(chk.seed * 2654435761 + 97 * (chk.seed % 1009) + 12345)
+    rng = C.SplitMix(chk.seed)
     broken = []
     # ---- regenerate the primitive bodies, build, prove -------------------------------------------
     try:
@@ -114,6 +118,17 @@ def run(chk, replay=None):
         if os.path.isdir(cdir):
             for f in sorted(os.listdir(cdir)):
                 reqs += [l.strip() for l in open(os.path.join(cdir, f)) if l.strip() and not l.startswith("#")]
+        # one interpreter object reused for thousands of runs, the lazily evaluated branch needed at run
+        # distances 2^k-1, 2^k, 2^k+1 (k <= 9: 3066 runs per scenario; k <= 17: 786 426 runs) - a run counter
+        # / generation stamp of 8 or 16 bits that wraps shows here
+        LSETS = ["real", "int", "str2", "typed3"]
+        for k in range(48 if quick else 400):
+            reqs.append(f"long {LSETS[k % 4]} {rng.next() % 1000000007} 9")
+        for k in range(0 if quick else 24):
+            reqs.append(f"long {LSETS[k % 4]} {rng.next() % 1000000007} 17")
+        # examples with 70000 features, variables with indices around 2^8 and 2^16
+        for k in range(40 if quick else 800):
+            reqs.append(f"wide {rng.next() % 1000000007} {rng.between(4, 17)} {rng.between(2, 4)}")
         n = 3000 if quick else 60000
         for k in range(n):
             st = SETS[rng.below(len(SETS))] if rng.below(10) else "illtyped"
@@ -145,17 +160,24 @@ def run(chk, replay=None):
             if a.startswith("bad-op"):
                 broken.append("harness rejects request `%s`: %s" % (q, a))
                 continue
-            chk.count("set:" + q.split()[1] if q.startswith("scn") else "set:chain")
+            qt = q.split()
+            chk.count("set:" + qt[1] if qt[0] == "scn" else "long:" + qt[1] if qt[0] == "long" else "set:" + qt[0])
             for prog, runs in parse_transcript(a):
                 pt = prog.split()
                 chk.count("programs")
                 state["programs"] += 1
                 chk.count("rows:%s" % ("2-8" if int(pt[1]) < 9 else "9-24" if int(pt[1]) < 25 else "25-64"))
                 chk.count("cats:" + pt[2])
-                for (kind, ex, vita, orc) in runs:
-                    chk.count("run:" + kind)
-                    chk.count("result:" + vita[0])
-                    if orc == "skip":
+                for (kind, ex, vita, orc, rep, bad) in runs:
+                    chk.count("run:" + kind, rep)
+                    chk.count("result:" + vita[0], rep)
+                    if rep > 1:
+                        chk.count("runs_inside_long_reuse", rep)
+                        chk.evaluations += rep - 1
+                    if bad:
+                        found.append((len(prog.split(" ; ")), len(ex), q, prog, kind, ex,
+                                      "%s (%d of %d consecutive runs of this example differ)" % (vita, bad, rep), orc))
+                    elif orc == "skip":
                         chk.count("oracle_skipped_big_tree")
                     elif vita != orc:
                         found.append((len(prog.split(" ; ")), len(ex), q, prog, kind, ex, vita, orc))
@@ -185,17 +207,18 @@ def run(chk, replay=None):
                                                  "100-9999" if size < 10000 else ">=10000"))
                     if size > reach:
                         chk.count("programs_with_shared_genes")
-                    for (kind, ex, _, _) in runs:
+                    for (kind, ex, _, _, _, _) in runs:
                         chk.seen((prog, kind, tuple(ex)), nontrivial=size > 1)
                     if "wf=1" not in head:
                         chk.count("model_says_not_wf")
                         broken.append("a program built by vita fails the model's WF check: `%s…` request `%s`" % (prog[:200], q))
-                    for (kind, ex, vita, orc), j in zip(runs, idx):
+                    for (kind, ex, vita, orc, rep, bad), j in zip(runs, idx):
                         m = ans[j].split() if j < len(ans) else ["missing"]
-                        if len(m) != 3:
-                            broken.append("model answer malformed: %r on `%s`" % (ans[j:j + 1], dl[j]))
+                        if len(m) != (3 if rep == 1 else 4) or (rep > 1 and m[3] != "same=1"):
+                            broken.append("model answer malformed / not constant over a repeated example: %r on `%s`"
+                                          % (ans[j:j + 1], dl[j][:200]))
                             continue
-                        mi, md, mok = m
+                        mi, md, mok = m[:3]
                         if dl[j - 1] == "stale":
                             chk.count("model_run_from_stale_state")
                         if md == "skip":
@@ -229,7 +252,7 @@ def run(chk, replay=None):
             f"expression tree gives {orc}, on example [{' '.join(ex)}] of program `{prog[:300]}…` "
             f"(smallest of {len(found)} failing runs)",
             {"request": q, "program": prog, "kind": kind, "example": ex, "vita": vita, "tree": orc},
-            tags={"kind": kind, "set": q.split()[1], "request": q})
+            tags={"kind": kind, "set": " ".join(q.split()[:2]), "request": q})
     chk.cov["model_vs_code_disagreements"] = ndis
 
     if broken and not [v for v in chk.violations if not v[2]]:
